@@ -572,7 +572,7 @@ def _make_parser(root, version, progress):  # noqa: C901
         elem = stack.pop()
         # normalize whitespace unless xml:space=preserve
         if 'text' in elem and elem.get(_XMLSPACEATTR, '') != 'preserve':
-            elem['text'] = ' '.join(elem['text'].split())
+            elem['text'] = _normalize_space(elem['text'])
         progress.update(force=(name == 'LexicalResource'))
 
     p.StartElementHandler = start
@@ -580,6 +580,12 @@ def _make_parser(root, version, progress):  # noqa: C901
     p.CharacterDataHandler = char_data
 
     return p
+
+
+def _normalize_space(text: str) -> str:
+    # only XML whitespace: str.split() would also swallow no-break
+    # spaces, ideographic spaces, etc., which are part of the text
+    return re.sub('[ \t\r\n]+', ' ', text).strip(' ')
 
 
 def _unexpected(name: str, p: xml.parsers.expat.XMLParserType) -> LMFError:
@@ -1011,7 +1017,7 @@ def _preserve_space(elem: ET.Element, version: VersionInfo) -> None:
     if version >= (1, 3):
         for node in elem.iter():
             text = node.text
-            if len(node) == 0 and text and text != ' '.join(text.split()):
+            if len(node) == 0 and text and text != _normalize_space(text):
                 node.set('xml:space', 'preserve')
 
 
